@@ -103,12 +103,20 @@ var dateRangeCompareMatrix = map[string]DateRangeComparison{
 	"AA": DateRangeComparisonEntirelyAfter,
 }
 
-func compareDatesForLetter(value, start, end Date) string {
+func compareDatesForLetter(value, start, end Date, preferEnd bool) string {
 	// We only deal with whole days. This is needed for dates that are ending
 	// dates so we don't get the 23:59:59.999 part.
 	valueTime := value.Time().Truncate(24 * time.Hour)
 	startTime := start.Time().Truncate(24 * time.Hour)
 	endTime := end.Time().Truncate(24 * time.Hour)
+
+	// When the range is a single day the value can be equal to the start and the
+	// end at the same time. The end of a range has to be matched with the end
+	// first, otherwise a single day compared with itself would be "ee"
+	// (InsideStart) rather than "eE" (Equal).
+	if preferEnd && valueTime.Equal(endTime) {
+		return "E"
+	}
 
 	switch {
 	case valueTime.Equal(startTime):
@@ -129,8 +137,8 @@ func compareDatesForLetter(value, start, end Date) string {
 }
 
 func (dr DateRange) Compare(dr2 DateRange) DateRangeComparison {
-	start := compareDatesForLetter(dr.start, dr2.start, dr2.end)
-	end := compareDatesForLetter(dr.end, dr2.start, dr2.end)
+	start := compareDatesForLetter(dr.start, dr2.start, dr2.end, false)
+	end := compareDatesForLetter(dr.end, dr2.start, dr2.end, true)
 
 	return dateRangeCompareMatrix[start+end]
 }
